@@ -19,7 +19,7 @@ POWER = {'C10'}
 # suffix '/b' = the drain after the last restart starts with a batch read instead of read_next.
 SKELS = {
     'C07': (['a,X|a,X', 'a,a:u|a:u,X', 'a,a', 'a,A2', 'A2,a', 'a,n,a', 'a,a:u,a', 'a,X,a|a,X', 'a,a|a/b'],
-            ['a,a', 'a,A2', 'a,a:u|a:u,X'],
+            ['a,a:u', 'a,a', 'a,A2', 'a,a:u|a:u,X'],
             ['a,a,a', 'A3', 'a,A2,a', 'a:u,a,a:u', 'A2,n,A2', 'A2,X|a,a,X']),
     'C08': (['A2', 'a,A2', 'A3', 'A2,A2', 'a,n,A2', 'A2|a,X'],
             ['A2', 'a,A2'],
@@ -151,8 +151,9 @@ def judge(script, obs, kinds):
         if ok is None:
             if consistency == 'StrictlyAtOnce' and ids and ids[0] in ack and ack.index(ids[0]) < d:
                 bad.append(('c09-redelivery', -1, 'topic %s: entry %s delivered again (acked %s, consumed %d, recovered %s)' % (t, ids[0], ack, d, ids)))
-            elif ids and ids[0] in ack and ack.index(ids[0]) > hi:
-                bad.append(('c09-skip', -1, 'topic %s: resumes at %s, skipped %s' % (t, ids[0], ack[hi:ack.index(ids[0])])))
+            elif (d > 0 or rin is not None) and len(ids) < len(pre[hi:] + postack) and (pre[hi:] + postack)[len(pre[hi:] + postack) - len(ids):] == ids:
+                full = pre[hi:] + postack
+                bad.append(('c09-skip', -1, 'topic %s: consumer (position %d) resumes at %s, skipped %s' % (t, d, ids[:1] or 'the end', full[:len(full) - len(ids)])))
             else:
                 bad.append(('c07-lost', -1, 'topic %s: acknowledged %s (consumed %d), in flight %s, recovered %s' % (t, ack, d, infl, ids)))
         elif infl and len(infl) > 1 and 0 < ok[1] < len(infl):
